@@ -863,7 +863,7 @@ func parseObs(sql string) (out [][]string) {
 	out = append(out, []string{"c-json", hx(canonJSON(cfg))})
 	// direct (non-aggregating) statements are also executed: the rows they produce must not depend on the layout
 	if cfg.Mode == types.ExecDirect {
-		out = append(out, []string{"x-rows", hx(execDirect(sql))})
+		out = append(out, []string{"x-rows", hx(c11ExecDirect(sql))})
 	}
 	return out
 }
@@ -887,9 +887,9 @@ var execRows = func() []map[string]interface{} {
 	return rows
 }()
 
-// execDirect runs the statement on the fixed rows through EmitSync and returns a canonical text
+// c11ExecDirect runs the statement on the fixed rows through EmitSync and returns a canonical text
 // (JSON with sorted keys per row; `-` for a filtered row).
-func execDirect(sql string) string {
+func c11ExecDirect(sql string) string {
 	s := streamsql.New(streamsql.WithDiscardLog())
 	defer s.Stop()
 	if err := s.Execute(sql); err != nil {
